@@ -543,6 +543,12 @@ where
 			change, num_change_outputs
 		);
 
+		if num_change_outputs == 0 || change < num_change_outputs as u64 {
+			return Err(Error::GenericError(format!(
+				"Unable to split change of {} into {} change outputs",
+				change, num_change_outputs
+			)));
+		}
 		let part_change = change / num_change_outputs as u64;
 		let remainder_change = change % num_change_outputs as u64;
 
